@@ -41,9 +41,13 @@ TNext == /\ l <= Len(Log) /\ l' = l + 1
                /\ Ev.prog0 = (IF Ev.withprog THEN Ev.prog ELSE <<112, 114, 111, 103, 114, 97, 109, 110, 97, 109, 101>>)
             \/ Ev.e = "Usage" /\ UNCHANGED cfg /\ Ev.out = "ok" /\ Ev.stray = 0
                /\ Ev.entries = Listing(cfg, ContOf(Ev.via, Ev.argv))
-            \/ Ev.e = "HelpArg" /\ UNCHANGED cfg /\ Ev.out = "ok"
+            \* help for one argument: the argument's description (header line + its text; the text carries the token
+            \* unless the argument has none) or "unknown" - never both, never neither
+            \/ Ev.e = "HelpArg" /\ UNCHANGED cfg
                /\ LET a == HelpArgOf(cfg, Ev.key) IN
-                  IF a > 0 THEN Ev.toks = <<a>> /\ ~Ev.unknown ELSE Ev.toks = <<>> /\ Ev.unknown
+                  CASE a > 0 -> Ev.out = "ok" /\ Ev.header /\ ~Ev.unknown /\ Ev.toks = (IF cfg.args[a].nodesc THEN <<>> ELSE <<a>>)
+                    [] a = 0 -> Ev.out = "ok" /\ ~Ev.header /\ Ev.unknown /\ Ev.toks = <<>>
+                    [] OTHER -> TRUE
             \/ Ev.e = "Define" /\ UNCHANGED cfg
                /\ LET d == DefineRes(cfg)
                       firstRef == IF \E k \in 1..Len(d) : d[k] = "refused" THEN CHOOSE k \in 1..Len(d) : d[k] = "refused" /\ \A j \in 1..(k-1) : d[j] = "ok" ELSE Len(d) + 1
